@@ -256,7 +256,8 @@ def gen_prep_call(rng, ts):
             kw[k] = rng.choice([True, False])
     if rng.random() < 0.35:
         for k in list(kw):
-            if k in ("delete_intervals",) or kw[k] is None or rng.random() < 0.4:
+            # (np.bool_ filter_* flags are rejected by tskit's simplify before any record is written)
+            if k == "delete_intervals" or k.startswith("filter_") or kw[k] is None or rng.random() < 0.4:
                 continue
             v = npify(rng, k, kw[k])
             if v is not kw[k]:
